@@ -1,44 +1,64 @@
 (* C01/Props.v — property-level theorems of C01 over the Cluster model (coq/theories/Cluster/Model.v). *)
 From Coq Require Import List ZArith Bool Lia.
-From BLB Require Import Gen.Consts C01.Model Cluster.Proofs.
+From BLB Require Import Gen.Consts C01.Model Cluster.Proofs Cluster.Frame Cluster.Inv C01.Witness.
 Import ListNotations.
 Open Scope Z_scope.
 
-(* [PARTIAL] Store level of c01_failed_write_confined - whatever its outcome a client Write executed at a tractserver leaves every other replica untouched and on its own replica keeps the version and every byte outside its own range *)
-Theorem c01_write_rpc_confined_partial :
-  forall reps ts tk ver wid off len reps' c,
-    ts_write reps ts tk ver wid off len = (reps', c) ->
-    (forall k', k' <> (ts, tk) -> rget reps' k' = rget reps k') /\
-    (rget reps (ts, tk) = None -> rget reps' (ts, tk) = None) /\
-    (forall r, rget reps (ts, tk) = Some r ->
-       exists r', rget reps' (ts, tk) = Some r' /\ r_ver r' = r_ver r /\
-                  (forall p, ~ (off <= p < off + len) -> byte_at (r_app r') p = byte_at (r_app r) p)).
-Proof. exact ts_write_frame. Qed.
-Print Assumptions c01_write_rpc_confined_partial.
+(* [FULL] c01_failed_write_confined - one scheduling decision changes replica data only if it executes an RPC and then only the one replica that RPC addresses and if the RPC is a client Write or Create only bytes inside the range the RPC names with the version kept and a newly created replica reading zero elsewhere. Together with c01_client_rpc_in_own_range this confines every write whatever its outcome to its own range of its own tracts *)
+Theorem c01_failed_write_confined : forall st ev, step_frame st ev.
+Proof. exact step_frame_holds. Qed.
+Print Assumptions c01_failed_write_confined.
 
-(* [PARTIAL] Store level of c01_failed_write_confined for Create - creating on an existing tract is a write at version 1 that keeps all bytes outside its range and a fresh tract reads as zero outside the range *)
-Theorem c01_create_rpc_confined_partial :
-  forall reps ts tsid tk wid off len reps' c,
-    ts_create reps ts tsid tk wid off len = (reps', c) ->
-    (forall k', k' <> (ts, tk) -> rget reps' k' = rget reps k') /\
-    (forall r, rget reps (ts, tk) = Some r ->
-       exists r', rget reps' (ts, tk) = Some r' /\ r_ver r' = r_ver r /\
-                  (forall p, ~ (off <= p < off + len) -> byte_at (r_app r') p = byte_at (r_app r) p)) /\
-    (rget reps (ts, tk) = None ->
-       forall r', rget reps' (ts, tk) = Some r' ->
-                  r_ver r' = 1 /\ forall p, ~ (off <= p < off + len) -> byte_at (r_app r') p = 0).
-Proof. exact ts_create_frame. Qed.
-Print Assumptions c01_create_rpc_confined_partial.
+(* [FULL] c01_client_rpc_in_own_range - rule V_ISSUE which the real client is checked against on every run admits a data carrying Write or Create only if it carries the id of the client's current write and names exactly the part of that write's range that lies in the named tract of the write's blob *)
+Theorem c01_client_rpc_in_own_range :
+  forall st rp, issue_allowed st rp = true ->
+    (k_kind rp = K_Write \/ k_kind rp = K_Create) -> k_len rp <> 0 ->
+    exists o, op_of_client (s_ops st) (k_cli rp) = Some o /\ o_kind o = 3 /\ o_blob o = k_blob rp /\
+              o_wid o = k_wid rp /\ seg_of (o_off o) (o_len o) (k_tract rp) = (k_off rp, k_len rp).
+Proof.
+  intros st rp H K L. unfold issue_allowed in H.
+  apply andb_true_iff in H as [_ H].
+  assert (TS : is_ts_kind (k_kind rp) = true) by (destruct K as [K|K]; rewrite K; reflexivity).
+  rewrite TS in H. apply andb_true_iff in H as [_ H].
+  assert (WK : (k_kind rp =? K_Write) || (k_kind rp =? K_Create) = true) by (destruct K as [K|K]; rewrite K; reflexivity).
+  rewrite WK in H. destruct (op_of_client (s_ops st) (k_cli rp)) as [o|]; [|discriminate].
+  exists o. apply andb_true_iff in H as [H H3]. apply andb_true_iff in H as [H1 H2].
+  apply Z.eqb_eq in H1, H2. apply orb_true_iff in H3 as [H3|H3]. { apply Z.eqb_eq in H3; contradiction. }
+  apply andb_true_iff in H3 as [H3 H6]. apply andb_true_iff in H3 as [H4 H5]. apply Z.eqb_eq in H4, H5, H6.
+  repeat split; auto. destruct (seg_of (o_off o) (o_len o) (k_tract rp)); cbn in *; congruence.
+Qed.
+Print Assumptions c01_client_rpc_in_own_range.
 
-(* [PARTIAL] Store level of bumped_is_frozen - a replica whose version differs from the version a write names rejects it with a version mismatch and no replica changes *)
-Theorem bumped_is_frozen_store_partial :
-  forall reps ts tk ver wid off len r,
-    rget reps (ts, tk) = Some r -> r_ver r <> ver ->
-    ts_write reps ts tk ver wid off len = (reps, cl_ErrVersionMismatch).
-Proof. exact ts_write_wrong_version. Qed.
-Print Assumptions bumped_is_frozen_store_partial.
+(* [REFUTED] c01_acked_write_visible - on the model that is faithful to the current code there is a run with no complaint of the model about any client in which a durable host at the durable version does not show an acknowledged write with no newer attempt on that byte - the witness is the directed schedule d1 replayed on the real code on every run of the check which is finding F21 *)
+Theorem c01_acked_write_visible_refuted :
+  exists evs blob tract h p,
+    clean_run evs = true /\ vis_ok (run_state init_state evs) blob tract h p = false.
+Proof. exists d1_ops, 0, 0, 1, 40. split; vm_compute; reflexivity. Qed.
+Print Assumptions c01_acked_write_visible_refuted.
 
-(* [PARTIAL] Store level of host_version_window - SetVersion never lowers a version never changes content and raises the version by at most one namely to the requested value and after a successful reply the version is at least the requested one *)
+(* [FULL] clients_name_only_durable_versions - in every reachable state the durable records are well formed with tract records only below the tract count of an existing blob and versions at least 1 and every version a client can still name is at most the durable version of that tract or at most 1 while the tract is not durable yet and this covers the location entries delivered to clients the tract lists inside replies that are still under way and the pending client Write RPCs. Holds for every schedule with lost and duplicated replies restarts crashes during a pull leader changes and stragglers *)
+Theorem clients_name_only_durable_versions : forall evs, Inv (run_state init_state evs).
+Proof. intro evs. apply inv_reachable. exact inv_init. Qed.
+Print Assumptions clients_name_only_durable_versions.
+
+(* [FULL] bumped_is_frozen - in every reachable state a replica whose version is above the durable version of its tract which is what a repair that has bumped but not yet committed leaves behind rejects every client Write that is still pending with a version mismatch and is left unchanged by it and a pending Create that finds such a replica changes nothing either so no write can be acknowledged through a bumped replica until the commit *)
+Theorem bumped_is_frozen :
+  forall evs e r dv hs,
+    let st := run_state init_state evs in
+    In e (s_pool st) ->
+    let tk := tkey (k_blob (p_rpc e)) (k_tract (p_rpc e)) in
+    rget (s_reps st) (k_ts (p_rpc e), tk) = Some r ->
+    tget (s_dtr st) tk = Some (dv, hs) -> dv < r_ver r ->
+    (k_kind (p_rpc e) = K_Write ->
+       ts_write (s_reps st) (k_ts (p_rpc e)) tk (k_ver (p_rpc e)) (k_wid (p_rpc e)) (k_off (p_rpc e)) (k_len (p_rpc e))
+       = (s_reps st, cl_ErrVersionMismatch)) /\
+    (k_kind (p_rpc e) = K_Create ->
+       forall tsid, fst (ts_create (s_reps st) (k_ts (p_rpc e)) tsid tk (k_wid (p_rpc e)) (k_off (p_rpc e)) (k_len (p_rpc e)))
+                    = s_reps st).
+Proof. exact bumped_is_frozen_reachable. Qed.
+Print Assumptions bumped_is_frozen.
+
+(* [PARTIAL] host_version_window at the Store - SetVersion never lowers a version never changes content and raises the version by at most one namely to the requested value and after a successful reply the version is at least the requested one *)
 Theorem setversion_window_partial :
   forall reps ts tsid tk nv reps' c,
     ts_setversion reps ts tsid tk nv = (reps', c) -> setversion_post reps reps' ts tk nv c.
